@@ -4,7 +4,7 @@
    pre-images (proofs/HashProofs.v), modulo collision-freeness of SHA-256 on the two pairs of
    pre-images compared. *)
 From Coq Require Import List NArith Bool Permutation Lia Arith.
-From SV Require Import lib.Bytes lib.KeySort model.HashTypes gen.GenHash model.Hash proofs.HashProofs
+From SV Require Import lib.Bytes lib.KeySort lib.Base85 model.HashTypes gen.GenHash model.Hash proofs.HashProofs
   model.HashSiteTypes gen.GenHashSites model.HashSites proofs.HashSitesProofs
   model.HashSkipTypes gen.GenHashSkip model.HashSkip.
 Import ListNotations.
@@ -13,15 +13,13 @@ Open Scope N_scope.
 (* ---------- the generated definitions have the shape the proofs are written for ---------- *)
 (* compute_inp_hashes lets a path pass silently only when the refreshed hash equals the recorded
    one and the recorded one is not unknown *)
-Lemma inp_entry_outcome_same df nu ou :
-  inp_entry_outcome df nu ou = InpSame -> df = false /\ ou = false.
-Proof. destruct df, nu, ou; vm_compute; intros E; try discriminate E; split; reflexivity. Qed.
+Lemma inp_entry_outcome_same df nu ou ur :
+  inp_entry_outcome df nu ou ur = InpSame -> df = false /\ ou = false.
+Proof. destruct df, nu, ou, ur; vm_compute; intros E; try discriminate E; split; reflexivity. Qed.
 
-Lemma inp_entry_outcome_differs nu ou : is_message (inp_entry_outcome true nu ou) = true.
-Proof. destruct nu, ou; reflexivity. Qed.
-
-Lemma inp_entry_outcome_missing nu : is_raise (inp_entry_outcome false nu true) = true.
-Proof. destruct nu; reflexivity. Qed.
+(* a hash that differs from the recorded one is never silent, readable or not *)
+Lemma inp_entry_outcome_differs nu ou ur : inp_entry_outcome true nu ou ur <> InpSame.
+Proof. destruct nu, ou, ur; vm_compute; discriminate. Qed.
 
 (* try_skip_job goes on exactly when the digests are equal *)
 Lemma skip_inp_differs_spec old new : skip_inp_differs old new = false <-> sh_inp old = sh_inp new.
@@ -69,12 +67,36 @@ Qed.
 Section SkipProofs.
   Variable H : str -> str.
 
+  (* ---------- compute_inp_hashes: one path ---------- *)
+  Lemma fh_eqb_unknown_l old : fh_eqb fh_unknown old = true -> fh_is_unknown old = true.
+  Proof.
+    unfold fh_eqb. intros E. apply fsig_eqb_eq in E. rewrite <- fs_unknown_sig, <- E. reflexivity.
+  Qed.
+
+  Lemma inp_entry_same d e :
+    snd (inp_entry H d e) = InpSame ->
+    fst (fst (inp_entry H d e)) = fst e
+    /\ fh_sig (snd (fst (inp_entry H d e))) = fh_sig (snd e)
+    /\ fh_is_unknown (snd e) = false
+    /\ inp_unchanged H d e = true.
+  Proof.
+    unfold inp_entry, inp_unchanged. destruct (refreshed_x H (snd e) (d (fst e))) as [new|].
+    - cbn [fst snd]. intros O. apply inp_entry_outcome_same in O. destruct O as [Df Ou].
+      apply negb_false_iff in Df. split; [reflexivity|]. split; [|split; [exact Ou|exact Df]].
+      unfold fh_eqb in Df. apply fsig_eqb_eq in Df. exact Df.
+    - destruct inp_on_unreadable as [u|] eqn:U.
+      + cbn [fst snd]. intros O. exfalso. apply inp_entry_outcome_same in O. destruct O as [Df Ou].
+        apply negb_false_iff in Df. unfold inp_on_unreadable in U.
+        first [discriminate U | injection U as <-].
+        apply fh_eqb_unknown_l in Df. rewrite Df in Ou. discriminate.
+      + cbn [snd]. discriminate.
+  Qed.
+
   (* ---------- compute_inp_hashes: what the guard `len(result.messages) == 0` guarantees ---------- *)
   Lemma compute_inp_hashes_quiet d olds all :
     compute_inp_hashes H d olds = Some (false, all) ->
-    all = map (fun e => (fst e, refreshed H (snd e) (d (fst e)))) (sort_keys olds)
-    /\ forall e, In e (sort_keys olds) ->
-         fh_sig (refreshed H (snd e) (d (fst e))) = fh_sig (snd e) /\ fh_is_unknown (snd e) = false.
+    all = map (fun e => fst (inp_entry H d e)) (sort_keys olds)
+    /\ forall e, In e (sort_keys olds) -> snd (inp_entry H d e) = InpSame.
   Proof.
     unfold compute_inp_hashes. set (rs := map (inp_entry H d) (sort_keys olds)).
     destruct (existsb is_raise (map snd rs)) eqn:R; [discriminate|].
@@ -85,12 +107,7 @@ Section SkipProofs.
       { apply in_map. unfold rs. apply in_map. exact He. }
       pose proof (existsb_false_forall _ _ R _ Hin) as NR.
       pose proof (existsb_false_forall _ _ M _ Hin) as NM.
-      unfold inp_entry in NR, NM. cbn [snd] in NR, NM.
-      destruct (inp_entry_outcome (negb (fh_eqb (refreshed H (snd e) (d (fst e))) (snd e)))
-                  (fh_is_unknown (refreshed H (snd e) (d (fst e)))) (fh_is_unknown (snd e))) eqn:O;
-        try discriminate.
-      apply inp_entry_outcome_same in O. destruct O as [Df Ou]. apply negb_false_iff in Df.
-      split; [|exact Ou]. unfold fh_eqb in Df. apply fsig_eqb_eq in Df. exact Df.
+      destruct (snd (inp_entry H d e)); try discriminate. reflexivity.
   Qed.
 
   (* the input map that reaches from_inp is the recorded one (path -> digest, mode, size as the
@@ -101,8 +118,8 @@ Section SkipProofs.
     unfold observed_inps. destruct (compute_inp_hashes H d olds) as [[m all]|] eqn:C; [|discriminate].
     destruct m; [discriminate|]. intros E. injection E as <-.
     destruct (compute_inp_hashes_quiet _ _ _ C) as [-> Hall].
-    unfold sigs. rewrite map_map. cbn [fst snd]. apply map_ext_in. intros e He.
-    destruct (Hall e He) as [Hs _]. rewrite Hs. reflexivity.
+    unfold sigs. rewrite map_map. apply map_ext_in. intros e He.
+    destruct (inp_entry_same d e (Hall e He)) as [Hp [Hs _]]. cbn [fst snd]. rewrite Hp, Hs. reflexivity.
   Qed.
 
   (* ... and none of its hashes is unknown: discharges sys_inputs_known *)
@@ -115,9 +132,8 @@ Section SkipProofs.
     destruct m; [discriminate|]. destruct (compute_inp_hashes_quiet _ _ _ C) as [_ Hall].
     apply forallb_forall. intros x Hx. unfold sigs in Hx. apply in_map_iff in Hx.
     destruct Hx as [e [<- He]]. cbn [snd]. rewrite fs_unknown_sig.
-    destruct (Hall e He) as [_ Hu]. rewrite Hu. reflexivity.
+    destruct (inp_entry_same d e (Hall e He)) as [_ [_ [Hu _]]]. rewrite Hu. reflexivity.
   Qed.
-
 
   Theorem observed_inps_recorded_and_known d olds inps :
     observed_inps H d olds = Some inps ->
@@ -126,36 +142,40 @@ Section SkipProofs.
     intros O. split; [exact (observed_inps_are_recorded d olds inps O)|exact (observed_inps_known d olds inps O)].
   Qed.
 
-  (* a changed, vanished or missing input never reaches from_inp *)
+  (* a changed, vanished, missing or unreadable input never reaches from_inp *)
   Theorem changed_input_is_reported d olds e :
-    In e (sort_keys olds) -> fh_eqb (refreshed H (snd e) (d (fst e))) (snd e) = false ->
-    observed_inps H d olds = None.
+    In e (sort_keys olds) -> inp_unchanged H d e = false -> observed_inps H d olds = None.
   Proof.
     intros He Df. unfold observed_inps.
     destruct (compute_inp_hashes H d olds) as [[m all]|] eqn:C; [|reflexivity].
     destruct m; [reflexivity|]. exfalso.
-    destruct (compute_inp_hashes_quiet _ _ _ C) as [_ Hall]. destruct (Hall e He) as [Hs _].
-    unfold fh_eqb in Df. rewrite Hs in Df.
-    assert (X : fsig_eqb (fh_sig (snd e)) (fh_sig (snd e)) = true) by (apply fsig_eqb_eq; reflexivity).
-    rewrite X in Df. discriminate.
+    destruct (compute_inp_hashes_quiet _ _ _ C) as [_ Hall].
+    destruct (inp_entry_same d e (Hall e He)) as [_ [_ [_ Hu]]]. rewrite Hu in Df. discriminate.
   Qed.
 
-  Lemma known_with_inps s inps :
-    forallb (fun e => negb (fs_is_unknown (snd e))) inps = true -> sys_inputs_known (with_inps s inps) = true.
-  Proof. intros K. exact K. Qed.
+  (* in particular: something that can be stat'ed but not hashed (a directory, a file without read
+     permission) whose stat fields are not all the recorded ones *)
+  Theorem unreadable_input_is_reported d olds e st :
+    In e (sort_keys olds) -> d (fst e) = DUnreadable st -> refreshed_same (snd e) st = false ->
+    observed_inps H d olds = None.
+  Proof.
+    intros He Hd Hs. apply (changed_input_is_reported d olds e He).
+    unfold inp_unchanged, refreshed_x. rewrite Hd, Hs. reflexivity.
+  Qed.
 
   (* ---------- the recorded hash ---------- *)
   Lemma full_step_hash_spec s d io oo rec rs :
     full_step_hash H s d io oo = Some (rec, rs) ->
-    exists inps, observed_inps H d io = Some inps
-      /\ rs = with_outs (with_inps s inps) (observed_outs H d oo)
+    exists inps outs, observed_inps H d io = Some inps /\ observed_outs H d oo = Some outs
+      /\ rs = with_outs (with_inps s inps) outs
       /\ sh_inp rec = H (inp_preimage (site_inp_cfg rs))
       /\ sh_out rec = Some (H (out_preimage (sys_outs rs)))
       /\ sys_inputs_known rs = true.
   Proof.
     unfold full_step_hash. destruct (observed_inps H d io) as [inps|] eqn:O; [|discriminate].
-    intros E. injection E as <- <-. exists inps. split; [reflexivity|]. split; [reflexivity|].
-    split; [cbn [sh_inp]; rewrite site_full_same; reflexivity|]. split.
+    destruct (observed_outs H d oo) as [outs|] eqn:Oo; [|discriminate].
+    intros E. injection E as <- <-. exists inps, outs. split; [reflexivity|]. split; [reflexivity|].
+    split; [reflexivity|]. split; [cbn [sh_inp]; rewrite site_full_same; reflexivity|]. split.
     - reflexivity.
     - exact (observed_inps_known _ _ _ O).
   Qed.
@@ -163,17 +183,18 @@ Section SkipProofs.
   (* ---------- Executor.try_skip_job ---------- *)
   Lemma try_skip_spec rec s d io oo h :
     try_skip H rec s d io oo = Some (true, h) ->
-    exists inps, observed_inps H d io = Some inps
+    exists inps outs, observed_inps H d io = Some inps /\ observed_outs H d oo = Some outs
       /\ sh_inp rec = H (inp_preimage (site_inp_cfg (with_inps s inps)))
-      /\ sh_out rec = Some (H (out_preimage (observed_outs H d oo)))
+      /\ sh_out rec = Some (H (out_preimage outs))
       /\ h = mk_shash (sh_inp rec) (sh_out rec).
   Proof.
     unfold try_skip. destruct (observed_inps H d io) as [inps|] eqn:O; [|discriminate].
     destruct (skip_inp_differs rec _) eqn:D1; [intros E; discriminate E|].
+    destruct (observed_outs H d oo) as [outs|] eqn:Oo; [|discriminate].
     destruct (skip_out_differs rec _) eqn:D2; [intros E; discriminate E|].
     intros E. injection E as <-. apply skip_inp_differs_spec in D1. apply skip_out_differs_spec in D2.
-    cbn [sh_inp sh_out] in D1, D2. exists inps. split; [reflexivity|].
-    destruct (site_outs_shape (with_outs (with_inps s inps) (observed_outs H d oo))) as [So _].
+    cbn [sh_inp sh_out] in D1, D2. exists inps, outs. split; [reflexivity|]. split; [reflexivity|].
+    destruct (site_outs_shape (with_outs (with_inps s inps) outs)) as [So _].
     rewrite So in D2. cbn [with_outs sys_outs] in D2.
     split; [exact D1|]. split; [exact D2|]. rewrite D1, D2. reflexivity.
   Qed.
@@ -191,8 +212,8 @@ Section SkipProofs.
       full_step_hash H s0 d0 io0 oo0 = Some (rec, rs) ->
       forall (s : syscfg) (d : disk) (io oo : list (str * fhash)) (h : shash),
         try_skip H rec s d io oo = Some (true, h) ->
-        forall inps, observed_inps H d io = Some inps ->
-        let now := with_outs (with_inps s inps) (observed_outs H d oo) in
+        forall inps outs, observed_inps H d io = Some inps -> observed_outs H d oo = Some outs ->
+        let now := with_outs (with_inps s inps) outs in
         sys_wf rs = true -> sys_wf now = true ->
         wf_files (sys_outs rs) = true -> wf_files (sys_outs now) = true ->
         digests_ok Lookahead (sys_outs rs) = true -> digests_ok Lookahead (sys_outs now) = true ->
@@ -200,10 +221,10 @@ Section SkipProofs.
         no_collision H (out_preimage (sys_outs rs)) (out_preimage (sys_outs now)) ->
         sys_equiv rs now /\ sys_out_equiv rs now /\ h = rec.
   Proof.
-    intros K s0 d0 io0 oo0 rec rs F s d io oo h T inps O now Wr Wn Wor Won Dr Dn Ci Co.
-    destruct (full_step_hash_spec _ _ _ _ _ _ F) as [inps0 [_ [_ [Ri [Ro Kr]]]]].
-    destruct (try_skip_spec _ _ _ _ _ _ T) as [inps' [O' [Ti [To Th]]]].
-    rewrite O in O'. injection O' as <-.
+    intros K s0 d0 io0 oo0 rec rs F s d io oo h T inps outs O Oo now Wr Wn Wor Won Dr Dn Ci Co.
+    destruct (full_step_hash_spec _ _ _ _ _ _ F) as [inps0 [outs0 [_ [_ [_ [Ri [Ro Kr]]]]]]].
+    destruct (try_skip_spec _ _ _ _ _ _ T) as [inps' [outs' [O' [Oo' [Ti [To Th]]]]]].
+    rewrite O in O'. injection O' as <-. rewrite Oo in Oo'. injection Oo' as <-.
     assert (Kn : sys_inputs_known now = true) by exact (observed_inps_known _ _ _ O).
     assert (Ei : inp_preimage (site_inp_cfg rs) = inp_preimage (site_inp_cfg now)).
     { apply Ci. rewrite <- Ri. exact Ti. }
@@ -214,7 +235,6 @@ Section SkipProofs.
     - unfold sys_out_equiv. apply (out_preimage_injective Lookahead); assumption.
     - rewrite Th. destruct rec. reflexivity.
   Qed.
-
 
   (* the input half alone: whenever the new hash has the recorded input digest (the first test of
      try_skip_job passed, whatever the second says) the input side of the configuration is the
@@ -232,10 +252,11 @@ Section SkipProofs.
         sys_equiv rs (with_inps s inps).
   Proof.
     intros K s0 d0 io0 oo0 rec rs F s d io oo b h inps O T E Wr Wn Ci.
-    destruct (full_step_hash_spec _ _ _ _ _ _ F) as [inps0 [_ [_ [Ri [_ Kr]]]]].
+    destruct (full_step_hash_spec _ _ _ _ _ _ F) as [inps0 [outs0 [_ [_ [_ [Ri [_ Kr]]]]]]].
     assert (Eh : sh_inp h = H (inp_preimage (site_inp_cfg (with_inps s inps)))).
     { unfold try_skip in T. rewrite O in T.
       destruct (skip_inp_differs rec _); [injection T as _ <-; reflexivity|].
+      destruct (observed_outs H d oo); [|discriminate T].
       destruct (skip_out_differs rec _); injection T as _ <-; reflexivity. }
     apply site_inp_injective_known; try assumption.
     - exact (observed_inps_known _ _ _ O).
@@ -247,27 +268,27 @@ Section SkipProofs.
   Theorem try_skip_unchanged_complete :
     forall (s0 : syscfg) (d0 : disk) (io0 oo0 : list (str * fhash)) (rec : shash) (rs : syscfg),
       full_step_hash H s0 d0 io0 oo0 = Some (rec, rs) ->
-      forall (s : syscfg) (d : disk) (io oo : list (str * fhash)) inps,
-        observed_inps H d io = Some inps ->
-        let now := with_outs (with_inps s inps) (observed_outs H d oo) in
+      forall (s : syscfg) (d : disk) (io oo : list (str * fhash)) inps outs,
+        observed_inps H d io = Some inps -> observed_outs H d oo = Some outs ->
+        let now := with_outs (with_inps s inps) outs in
         sys_wf rs = true -> nodup_keys (sys_outs rs) = true ->
         sys_equiv rs now -> sys_out_equiv rs now ->
         try_skip H rec s d io oo = Some (true, rec).
   Proof.
-    intros s0 d0 io0 oo0 rec rs F s d io oo inps O now Wr Nr Eq Eo.
-    destruct (full_step_hash_spec _ _ _ _ _ _ F) as [inps0 [_ [_ [Ri [Ro _]]]]].
+    intros s0 d0 io0 oo0 rec rs F s d io oo inps outs O Oo now Wr Nr Eq Eo.
+    destruct (full_step_hash_spec _ _ _ _ _ _ F) as [inps0 [outs0 [_ [_ [_ [Ri [Ro _]]]]]]].
     unfold try_skip. rewrite O.
     assert (Ei : inp_preimage (site_inp_cfg rs) = inp_preimage (site_inp_cfg (with_inps s inps))).
     { apply (site_inp_order_independent rs now Wr Eq). }
-    assert (Eo' : out_preimage (sys_outs rs) = out_preimage (observed_outs H d oo)).
+    assert (Eo' : out_preimage (sys_outs rs) = out_preimage outs).
     { apply out_order_independent; [exact Nr|exact Eo]. }
     assert (D1 : skip_inp_differs rec (mk_shash (H (inp_preimage (site_inp_cfg (with_inps s inps)))) None) = false).
     { apply skip_inp_differs_spec. cbn [sh_inp]. rewrite Ri, Ei. reflexivity. }
-    rewrite D1.
-    destruct (site_outs_shape (with_outs (with_inps s inps) (observed_outs H d oo))) as [So _].
+    rewrite D1, Oo.
+    destruct (site_outs_shape (with_outs (with_inps s inps) outs)) as [So _].
     rewrite So. cbn [with_outs sys_outs sh_inp].
     assert (D2 : skip_out_differs rec (mk_shash (H (inp_preimage (site_inp_cfg (with_inps s inps))))
-                                                (Some (H (out_preimage (observed_outs H d oo))))) = false).
+                                                (Some (H (out_preimage outs)))) = false).
     { apply skip_out_differs_spec. cbn [sh_out]. rewrite Ro, Eo'. reflexivity. }
     rewrite D2. f_equal. f_equal. destruct rec as [ri ro]. cbn [sh_inp sh_out] in Ri, Ro.
     rewrite Ri, Ro, Ei, Eo'. reflexivity.
